@@ -4,7 +4,7 @@ CONSTANTS
   Periods = {0, 2, 3}
   Waits = {0, 3}
   ImrVals <- ImrTiny
-  MaxDepth = 5
+  MaxDepth = 4
   MaxNest = 2
   RecordActs = TRUE
 INVARIANT TypeOK
